@@ -45,15 +45,20 @@ def hashToScalar (H : Bytes → Bytes) (input dst : Bytes) : Option L4 :=
 
 def F := Hand.limbOps
 
+/-- map one field element to the group: `IsogenySecp256k13iso(SSWU(u))` (generic over the operations record) -/
+def encodeToGroupCore {α : Type} (F : FieldOps α) (u0 : α) : Pt α := Curve.isogeny F (Curve.sswu F u0)
+
+/-- map two field elements and add the results with the complete addition -/
+def hashToGroupCore {α : Type} (F : FieldOps α) (u0 u1 : α) : Pt α :=
+  Hand.Element.add F (encodeToGroupCore F u0) (some (encodeToGroupCore F u1))
+
 /-- body of `EncodeToGroup` after the expander call -/
 def encodeToGroupFromUniform (u : Bytes) : Pt L4 :=
-  Curve.isogeny F (Curve.sswu F (Hand.Fp.hashToFieldElement (u.take 48)))
+  encodeToGroupCore F (Hand.Fp.hashToFieldElement (u.take 48))
 
 /-- body of `HashToGroup` after the expander call -/
 def hashToGroupFromUniform (u : Bytes) : Pt L4 :=
-  let q0 := Curve.isogeny F (Curve.sswu F (Hand.Fp.hashToFieldElement (u.take 48)))
-  let q1 := Curve.isogeny F (Curve.sswu F (Hand.Fp.hashToFieldElement ((u.drop 48).take 48)))
-  Hand.Element.add F q0 (some q1)
+  hashToGroupCore F (Hand.Fp.hashToFieldElement (u.take 48)) (Hand.Fp.hashToFieldElement ((u.drop 48).take 48))
 
 def encodeToGroup (H : Bytes → Bytes) (input dst : Bytes) : Option (Pt L4) :=
   (expandXMD H input dst 48).map encodeToGroupFromUniform
